@@ -15,6 +15,8 @@ def suite_histories(suite, tier, seed):
         hs = fsgen.scripted()
         hs += fsgen.random_histories(seed + 7, 12 if quick else 200, 40 if quick else 60)
         return hs, dict(crash=120 if quick else 1000, remount=False)
+    if suite == 'fault':
+        return fsgen.fault_histories(seed, quick), dict(crash=0, remount=False, tlc_timeout=3000)
     if suite == 'mount':
         return fsgen.mount_histories(seed, quick), dict(crash=0, remount=True)
     if suite == 'lfn':
@@ -70,12 +72,14 @@ def run_shard(args):
         skip = pr['hist_index'] + 1
         if skip >= len(hs):
             break
-    hstats = dict(api_calls=0, dev_writes=0, crash_mounts=0, panics=0)
+    hstats = dict(api_calls=0, dev_writes=0, crash_mounts=0, panics=0, resets=0)
     with open(tr) as fh:
         for line in fh:
             if line.startswith('{"a"') or '"ev":"Call"' in line[:400]:
                 pass
             e = json.loads(line)
+            if e['ev'] == 'Reset':
+                hstats['resets'] += 1
             if e['ev'] == 'Call':
                 hstats['api_calls'] += 1
             elif e['ev'] == 'W':
@@ -135,7 +139,7 @@ def run_suite(suite, tier, seed, force=False):
                     rest.append(json.loads(ln))
         sample = rest
     res = dict(suite=suite, tier=tier, seed=seed, key=key, dir=cdir, wall=time.time() - t0, errors=errors,
-               histories=len(hs), viols=viols,
+               histories=sum(r['hstats'].get('resets', 0) for r in results if 'hstats' in r), viols=viols,
                tlc_states=sum((r.get('stats') or {}).get('distinct', 0) for r in results),
                tlc_generated=sum((r.get('stats') or {}).get('generated', 0) for r in results),
                api_calls=sum(r['hstats']['api_calls'] for r in results if 'hstats' in r),
